@@ -5,20 +5,24 @@
 EXTENDS Naturals, Sequences, FiniteSets, TLC, TraceKit
 Fresh(stim) == [stim |-> stim, fired |-> FALSE, offeredAfterFire |-> {}, offered |-> {}, taken |-> {}, accepted |-> {}, handlerDone |-> {},
                 done |-> {}, dropped |-> {}, resolved |-> FALSE, epilogue |-> FALSE, final |-> FALSE, incomingEnded |-> FALSE,
-                hopen |-> {}, hseen |-> 0, observed |-> FALSE]
-Keys == {"runs", "aged_runs", "incoming_ended_runs", "fired_runs", "signal_with_calls_in_flight", "late_offers", "streaming_calls", "client_drops", "resolved_runs", "calls_completed"}
+                hopen |-> {}, hseen |-> 0, observed |-> FALSE, settled |-> FALSE]
+Keys == {"runs", "same_tick_steps", "aged_runs", "incoming_ended_runs", "fired_runs", "signal_with_calls_in_flight", "late_offers", "streaming_calls", "client_drops", "resolved_runs", "calls_completed"}
 Init == InitK(Fresh([calls |-> <<>>]), Keys)
 CallRec(stim, k) == stim.calls[CHOOSE i \in 1..Len(stim.calls) : stim.calls[i].k = k]
 Expected(stim, k) == LET c == CallRec(stim, k) IN IF c.items = 0 THEN << <<k, 100>> >> ELSE [i \in 1..c.items |-> <<k, i - 1>>]
 Reset == ResetK(Fresh(E.stim)) /\ Count({"runs"} \cup (IF \E i \in 1..Len(E.stim.calls) : E.stim.calls[i].items > 0 THEN {"streaming_calls"} ELSE {}))
+\* A step flagged nb is followed by the next one in the same scheduler tick (the server has not run in between), so a
+\* connection offered in the tick of the signal is not "after the signal": `settled` = the signal fired and the server has
+\* since had a full quiescent period to observe it.
+Settle(t) == [t EXCEPT !.settled = @ \/ ((t.fired \/ t.incomingEnded) /\ ~(Has(E, "nb") /\ E.nb))]
 Step == /\ Live("step")
-        /\ JudgeK(<<>>, CASE E.op = "fire" -> [s EXCEPT !.fired = TRUE]
-                          [] E.op = "end_incoming" -> [s EXCEPT !.incomingEnded = TRUE]
-                          [] E.op = "offer" -> [s EXCEPT !.offered = @ \cup {E.c}, !.offeredAfterFire = IF s.fired \/ s.incomingEnded THEN @ \cup {E.c} ELSE @]
-                          [] E.op = "drop" -> [s EXCEPT !.dropped = @ \cup {E.c}]
-                          [] OTHER -> s)
+        /\ JudgeK(<<>>, Settle(CASE E.op = "fire" -> [s EXCEPT !.fired = TRUE]
+                                 [] E.op = "end_incoming" -> [s EXCEPT !.incomingEnded = TRUE]
+                                 [] E.op = "offer" -> [s EXCEPT !.offered = @ \cup {E.c}, !.offeredAfterFire = IF s.settled THEN @ \cup {E.c} ELSE @]
+                                 [] E.op = "drop" -> [s EXCEPT !.dropped = @ \cup {E.c}]
+                                 [] OTHER -> s))
         /\ Count((IF E.op = "fire" THEN {"fired_runs"} ELSE {}) \cup (IF E.op = "fire" /\ (s.accepted \ s.handlerDone) # {} THEN {"signal_with_calls_in_flight"} ELSE {})
-                 \cup (IF E.op = "offer" /\ (s.fired \/ s.incomingEnded) THEN {"late_offers"} ELSE {}) \cup (IF E.op = "drop" THEN {"client_drops"} ELSE {})
+                 \cup (IF E.op = "offer" /\ s.settled THEN {"late_offers"} ELSE {}) \cup (IF Has(E, "nb") /\ E.nb THEN {"same_tick_steps"} ELSE {}) \cup (IF E.op = "drop" THEN {"client_drops"} ELSE {})
                  \cup (IF E.op = "age" THEN {"aged_runs"} ELSE {}) \cup (IF E.op = "end_incoming" THEN {"incoming_ended_runs"} ELSE {}))
 Taken == /\ Live("taken") /\ UNCHANGED stats
          /\ JudgeK(<< <<"C13.NoConnectionAcceptedAfterSignal", E.c \notin s.offeredAfterFire>>, <<"HarnessOK", E.c \in s.offered>> >>, [s EXCEPT !.taken = @ \cup {E.c}])
